@@ -49,13 +49,13 @@ def gen_case(rng, i, tier):
             continue
         k = rng.choice(KINDS + ["pcmseek", "pcmseek"])
         if k.startswith("time"):
-            a = rng.choice([0, dur, dur - 1, rng.randrange(0, dur + 2), -1])
+            a = rng.choice([0, dur, dur - 1, rng.randrange(0, dur + 2), -1, "end", "endm", "endp", "nan"])
         elif k == "rawseek":
             a = rng.randrange(0, 14000)
         else:
             a = pos()
-        ops.append("%s 1 %d" % (k, a))
-        ops.append("%s 0 %d" % (lapname(k), a))
+        ops.append("%s 1 %s" % (k, a))
+        ops.append("%s 0 %s" % (lapname(k), a))
         ops += ["tell 1", "tell 0"]
         for _ in range(rng.choice([1, 2, 4])):
             ln = rng.choice([1, 17, 64, 4096])
